@@ -86,6 +86,26 @@ def check_c08(run):
     _mc(run, "RuleSetMC.tla", "mc.cfg",
         "SPECIFICATION RSSpec\nCHECK_DEADLOCK FALSE\nCONSTANTS\n  RSNames <- N3\n  RSSal <- %s\n  RSMaxOps = 3\nINVARIANT Denotes\n"
         % ("S2" if quick else "S3"))
+    # the incremental insertion as implemented (slices over a heap, shadowed inner slice, unassigned `mid`, live index
+    # map) refines RuleSet!Incr for every small container, text, processing order and append growth policy; and the
+    # refinement fails if every append allocated a fresh array (what the code relies on not happening)
+    d = run.spec_dir("impl")
+    icfg = ("SPECIFICATION ISpec\nCONSTANTS\n  Names = {\"a\", \"b\", \"c\", \"d\"}\n  Sals = {0, 1, 2}\n  MaxOld = %d\n  MaxNew = %d\n"
+            "  Slack = 1\n  AlwaysFresh = %s\n")
+    open(os.path.join(d, "i1.cfg"), "w").write(icfg % (3, 2 if quick else 3, "FALSE"))
+    r1 = run.tlc("RuleSetImpl.tla", "i1.cfg", workers=4, cwd=d, timeout=3000)
+    if not r1.ok:
+        raise Infra("RuleSetImpl does not refine RuleSet!Incr on the model (a design counterexample, not a verdict on the code):\n" + r1.tail(30))
+    open(os.path.join(d, "i2.cfg"), "w").write(icfg % (3, 2, "TRUE"))
+    r2 = run.tlc("RuleSetImpl.tla", "i2.cfg", workers=2, cwd=d, timeout=900)
+    if r2.ok or "Assumption" not in r2.out:
+        raise Infra("vacuity guard: RuleSetImpl with AlwaysFresh = TRUE should not refine")
+    m = re.search(r'<<"olds", (\d+), "news", (\d+)>>', r1.out)
+    inst = int(m.group(1)) * int(m.group(2)) * 2 if m else 0
+    run.cov["impl_refinement_instances"] = inst
+    run.cov["states"] = run.cov.get("states", 0) + inst
+    run.cov["transitions"] = run.cov.get("transitions", 0) + inst
+    run.log("RuleSetImpl refines RuleSet!Incr on %d (container, text, growth) instances; the AlwaysFresh variant does not" % inst)
     recs = _gen(run, "RuleSetGen.tla", "g.cfg",
                 "SPECIFICATION RSSpec\nCHECK_DEADLOCK FALSE\nCONSTANTS\n  RSNames <- N3\n  RSSal <- S2\n  RSMaxOps = 0\n  GMaxOps = %d\n"
                 % (3 if quick else 4), "hist")
